@@ -384,7 +384,7 @@ def merge_semantics(rep, rule, prog, cg):
         for bb in mer.bbs:
             for st in bb['st']:
                 p = st.get('p')
-                if p and p['p'] and p['p'][0] == '*' and mer.local_name(p['l']) == 'value':
+                if p and p['p'] and p['p'][0] == '*' and p['l'] == 2:   # merge(wire_type, value: &mut T, buf, ctx): *value = ..
                     assigns = True
         calls = {cs.name for cs in mer.calls()}
         if assigns or (m == 'bytes' and ({'replace_with'} & calls or 'merge_one_copy' in calls or 'copy_to_bytes' in calls)):
@@ -467,7 +467,7 @@ def merge_semantics(rep, rule, prog, cg):
                 c = b.expr_op(t['o'])
                 if c[0] == 'bin' and c[1] in ('Ne', 'Eq'):
                     xs = (c[2], c[3])
-                    if any(x[0] == 'arg' and x[2] == 'tag' for x in xs) and any(any(s[0] == 'call' and s[1].endswith('decode_key') for s in subexprs(x)) for x in xs):
+                    if any(x[0] == 'arg' and x[1] == 2 for x in xs) and any(any(s[0] == 'call' and s[1].endswith('decode_key') for s in subexprs(x)) for x in xs):
                         cmp_ok = True
         if good and cmp_ok:
             rep.ok(rule, key, 'nested groups are skipped with their own tag; the end marker is matched against the enclosing tag', b.loc())
